@@ -1051,6 +1051,13 @@ def frag_layer(run, rng, tier, model):
                 put(ty, pat, n, {L: (ms, f, "l")}, "valid-longform", level=L)        # the final length in its two-octet form
             if not (ty.heavy and q and ci % 2):
                 put(ty, pat, n, fr, "tail", tail=[b"\x00", b"\xff", rng.bytes(3)][ci % 3], level=L)
+            if L != "all" and ci % 4 == 1 and not ty.heavy:
+                # a multiplier X.691 11.9.3.8 prohibits (0, 5..) in place of one of the fragments: never accepted
+                j = rng.below(len(ms))
+                bad = ms[:j] + [rng.choice([0, 5, 6, 9])] + ms[j + 1:]
+                sol2 = FR.solve(ty, L, bad, f)
+                if sol2:
+                    put(ty, pat, sol2[0], {L: (bad, sol2[1], FR.form_of(sol2[1]))}, "badmult", level=L)
             cps = FR.cut_points(me["marks"], me["full"])
             if q or ty.heavy:
                 k = 1 if ty.heavy else 3
@@ -1121,6 +1128,10 @@ def frag_layer(run, rng, tier, model):
                 continue
             if me["kind"] == "canonical" and ty.canon_re and r["rc"] == "OK" and r["re"] != r["in"]:
                 run.violation("oracle:frag:canonical-form", dict(rep, what="the encoder's output for the decoded value (%s) is not the largest-first fragmentation built by lib/c04_frag.py (%s)" % (r["re"], r["in"])))
+        if me["kind"] == "badmult":
+            if r["rc"] == "OK":
+                run.violation("oracle:frag:prohibited-multiplier", dict(rep, what="a length determinant with a fragment multiplier outside 1..4 is accepted (RC_OK)"))
+            continue
         if me["kind"] == "trunc":
             run.count("frag_prefix_%s" % r["rc"])
             if r["rc"] == "OK":
@@ -1158,7 +1169,7 @@ def frag_layer(run, rng, tier, model):
             elif loop == "list":
                 cmds.append("fragarr %d" % sum(cs))
         return cmds
-    tie = [(i, model_cmds(me)) for i, me in enumerate(metas) if results[i] is not None and me["kind"] != "trunc" and results[i]["rc"] == "OK"]
+    tie = [(i, model_cmds(me)) for i, me in enumerate(metas) if results[i] is not None and me["kind"] not in ("trunc", "badmult") and results[i]["rc"] == "OK"]
     distinct = sorted(set(c for _, cs in tie for c in cs))
     mans = dict(zip(distinct, model_par(model, distinct))) if distinct else {}
     tlog("frag: model done (%d distinct loop runs)" % len(distinct))
@@ -1187,7 +1198,7 @@ def frag_layer(run, rng, tier, model):
     # the same value in every fragmentation: return code, DER, constraint verdict and re-encoding of the canonical order
     for i, me in enumerate(metas):
         r = results[i]
-        if r is None or me["kind"] in ("trunc", "canonical"):
+        if r is None or me["kind"] in ("trunc", "canonical", "badmult"):
             continue
         ref = refs.get((me["ty"].name, me["n"]))
         rr = results[ref["idx"]] if ref is not None else None
